@@ -186,13 +186,16 @@ Definition sort_off (l : list entry) : list entry := fold_right ins_off [] l.
 (* pts n: what the backend decodes from the node's chunk (offset, size, count) *)
 Definition fetch (pts : entry -> list pt) (ns : list entry) : list pt := concat (map pts (sort_off ns)).
 
+(* the integer box filter is applied whenever a box was given *)
+Definition result_of (qb : qbox) (q : qgrid) (ps : list pt) : list pt :=
+  match qb with NoBox => ps | _ => filter (keep q) ps end.
+
 Definition query (fuel : nat) (t : tree) (g : geom) (qb : qbox) (hz0 hz1 : Z) (q : qgrid) (lv : levels)
            (pts : entry -> list pt) : result (list pt) :=
   match load_octree fuel t g (ensure_3d qb hz0 hz1) (level_range lv) with
   | Err e => Err e
   | Ok ns =>
-    let ps := fetch pts ns in
-    Ok (match qb with NoBox => ps | _ => filter (keep q) ps end)
+    Ok (result_of qb q (fetch pts ns))
   end.
 
 (* the exact quotient (b - offset) / scale, b and offset in units 1/D, scale = sn/sd *)
@@ -235,3 +238,127 @@ Definition lookup_pts (tbl : list ((Z * Z * Z) * list pt)) (n : entry) : list pt
   | Some r => snd r
   | None => []
   end.
+
+(* ================= specification side (used by the theorems, not by the driver) ================= *)
+Definition is_node (e : entry) : bool := negb (is_ref e).
+(* the nodes the octree stores: every entry, of any page, that describes a node *)
+Definition nodes_of (t : tree) : list entry := filter is_node (all_entries t).
+Definition all_pages (t : tree) : list page := t_root t :: map snd (t_pages t).
+
+Definition sel_level (lv : option (Z * Z)) (e : entry) : bool := in_level lv (e_key e).
+Definition sel_box (g : geom) (ob : option box) (e : entry) : bool := in_bounds g ob (e_key e).
+(* nodes of the selected levels whose cube overlaps the box (faces included) *)
+Definition target (t : tree) (g : geom) (ob : option box) (lv : option (Z * Z)) : list entry :=
+  filter (sel_box g ob) (filter (sel_level lv) (nodes_of t)).
+
+Record wf_tree (t : tree) : Prop := mkWf {
+  (* a key is described once *)
+  wf_unique : NoDup (map e_key (nodes_of t));
+  (* counts, levels, the root key, and: the parent of every node is a node *)
+  wf_count : forall e, In e (nodes_of t) -> 0 <= e_cnt e;
+  wf_level : forall e, In e (nodes_of t) -> 0 <= kl (e_key e);
+  wf_root : forall e, In e (nodes_of t) -> kl (e_key e) = 0 -> e_key e = root_key;
+  wf_parent : forall e, In e (nodes_of t) -> 0 < kl (e_key e) ->
+              exists ep, In ep (nodes_of t) /\ e_key ep = parent (e_key e);
+  (* the page-reference rule: the page a reference points to describes that key *)
+  wf_ref : forall e, In e (all_entries t) -> is_ref e = true ->
+           exists e', lookup (e_key e) (page_dict (page_at (t_pages t) (e_off e) (e_size e))) = Some e' /\ is_ref e' = false;
+  (* a page that describes a node mentions each of its existing children (as a node or as a reference) *)
+  wf_children : forall p ep e, In p (all_pages t) -> In ep p -> is_ref ep = false -> In e (nodes_of t) ->
+                0 < kl (e_key e) -> parent (e_key e) = e_key ep -> exists e', In e' p /\ e_key e' = e_key e;
+  (* the root page mentions the root *)
+  wf_root_page : forall e, In e (nodes_of t) -> e_key e = root_key -> exists e', In e' (t_root t) /\ e_key e' = root_key
+}.
+
+(* ---------- coordinates: real = X * (sn / sd) + off / D, compared with b / D ---------- *)
+Record axis := mkAxis { a_sn : Z; a_sd : Z; a_off : Z }.
+Record csys := mkCsys { c_D : Z; c_x : axis; c_y : axis; c_z : axis }.
+Definition axis_ok (a : axis) : Prop := 0 < a_sn a /\ 0 < a_sd a.
+Definition csys_ok (c : csys) : Prop := 0 < c_D c /\ axis_ok (c_x c) /\ axis_ok (c_y c) /\ axis_ok (c_z c).
+
+(* real coordinate times D * sd *)
+Definition rnum (D : Z) (a : axis) (X : Z) : Z := X * a_sn a * D + a_off a * a_sd a.
+(* b0 / D <= real <= b1 / D *)
+Definition in_range1 (D : Z) (a : axis) (X b0 b1 : Z) : bool :=
+  (b0 * a_sd a <=? rnum D a X) && (rnum D a X <=? b1 * a_sd a).
+Definition inside (c : csys) (b : box) (p : pt) : bool :=
+  in_range1 (c_D c) (c_x c) (p_x p) (b_x0 b) (b_x1 b)
+  && in_range1 (c_D c) (c_y c) (p_y p) (b_y0 b) (b_y1 b)
+  && in_range1 (c_D c) (c_z c) (p_z p) (b_z0 b) (b_z1 b).
+
+(* the point lies in the cube of key k (faces included) *)
+Definition in_cube1 (D : Z) (a : axis) (rlo side l x X : Z) : Prop :=
+  (rlo * 2 ^ l + x * side) * a_sd a <= rnum D a X * 2 ^ l /\ rnum D a X * 2 ^ l <= (rlo * 2 ^ l + (x + 1) * side) * a_sd a.
+Definition in_cube (c : csys) (g : geom) (k : vkey) (p : pt) : Prop :=
+  in_cube1 (c_D c) (c_x c) (g_x g) (g_side g) (kl k) (kx k) (p_x p)
+  /\ in_cube1 (c_D c) (c_y c) (g_y g) (g_side g) (kl k) (ky k) (p_y p)
+  /\ in_cube1 (c_D c) (c_z c) (g_z g) (g_side g) (kl k) (kz k) (p_z p).
+
+Definition pt_i32 (p : pt) : Prop :=
+  gen_i32_min <= p_x p <= gen_i32_max /\ gen_i32_min <= p_y p <= gen_i32_max /\ gen_i32_min <= p_z p <= gen_i32_max.
+
+(* the grid bounds computed without rounding error *)
+Definition exact_grid (c : csys) (b : box) : qgrid :=
+  mkQ (exact_q (c_D c) (a_sn (c_x c)) (a_sd (c_x c)) (a_off (c_x c)) (b_x0 b))
+      (exact_q (c_D c) (a_sn (c_y c)) (a_sd (c_y c)) (a_off (c_y c)) (b_y0 b))
+      (exact_q (c_D c) (a_sn (c_z c)) (a_sd (c_z c)) (a_off (c_z c)) (b_z0 b))
+      (exact_q (c_D c) (a_sn (c_x c)) (a_sd (c_x c)) (a_off (c_x c)) (b_x1 b))
+      (exact_q (c_D c) (a_sn (c_y c)) (a_sd (c_y c)) (a_off (c_y c)) (b_y1 b))
+      (exact_q (c_D c) (a_sn (c_z c)) (a_sd (c_z c)) (a_off (c_z c)) (b_z1 b)).
+
+(* all points stored in the nodes of the selected levels *)
+Definition level_points (t : tree) (lv : option (Z * Z)) (pts : entry -> list pt) : list pt :=
+  flat_map pts (filter (sel_level lv) (nodes_of t)).
+
+(* what a node decodes to when its chunk is cut out of the file *)
+Definition node_dec {A} (dec : list Z -> Z -> list A) (file : list Z) (n : entry) : list A :=
+  dec (read_range file (e_off n) (e_size n)) (e_cnt n).
+Definition node_in_file (file : list Z) (n : entry) : Prop :=
+  0 <= e_off n /\ 0 <= e_size n /\ e_off n + e_size n <= len file.
+
+(* the box contains the root cube (x, y; z for 3-D boxes) *)
+Definition encloses (g : geom) (qb : qbox) : Prop :=
+  match qb with
+  | NoBox => True
+  | Box2 x0 y0 x1 y1 => x0 <= g_x g /\ g_x g + g_side g <= x1 /\ y0 <= g_y g /\ g_y g + g_side g <= y1
+  | Box3 x0 y0 z0 x1 y1 z1 => x0 <= g_x g /\ g_x g + g_side g <= x1 /\ y0 <= g_y g /\ g_y g + g_side g <= y1
+                              /\ z0 <= g_z g /\ g_z g + g_side g <= z1
+  end.
+(* stored points: inside the cube of their node, int32 coordinates, z inside the header's z range *)
+Definition pts_ok (t : tree) (c : csys) (g : geom) (hz0 hz1 : Z) (pts : entry -> list pt) : Prop :=
+  forall e p, In e (nodes_of t) -> In p (pts e) ->
+    in_cube c g (e_key e) p /\ pt_i32 p /\ in_range1 (c_D c) (c_z c) (p_z p) hz0 hz1 = true.
+
+(* ---------- executable well-formedness check (sound for wf_tree: Proofs/CopcWf.v) ---------- *)
+Fixpoint nodupb (l : list vkey) : bool :=
+  match l with [] => true | x :: r => negb (existsb (key_eqb x) r) && nodupb r end.
+Definition has_node (t : tree) (k : vkey) : bool := existsb (fun e => key_eqb (e_key e) k) (nodes_of t).
+Definition mentions (p : page) (k : vkey) : bool := existsb (fun e => key_eqb (e_key e) k) p.
+Definition wf_treeb (t : tree) : bool :=
+  nodupb (map e_key (nodes_of t))
+  && forallb (fun e => (0 <=? e_cnt e) && (0 <=? kl (e_key e))
+                       && (if kl (e_key e) =? 0 then key_eqb (e_key e) root_key else has_node t (parent (e_key e))))
+             (nodes_of t)
+  && forallb (fun e => if is_ref e
+                       then match lookup (e_key e) (page_dict (page_at (t_pages t) (e_off e) (e_size e))) with
+                            | Some e' => negb (is_ref e') | None => false end
+                       else true) (all_entries t)
+  && forallb (fun p => forallb (fun ep => is_ref ep ||
+                forallb (fun e => if (0 <? kl (e_key e)) && key_eqb (parent (e_key e)) (e_key ep)
+                                  then mentions p (e_key e) else true) (nodes_of t)) p) (all_pages t)
+  && forallb (fun e => if key_eqb (e_key e) root_key then mentions (t_root t) root_key else true) (nodes_of t).
+
+Definition in_cube1b (D : Z) (a : axis) (rlo side l x X : Z) : bool :=
+  ((rlo * 2 ^ l + x * side) * a_sd a <=? rnum D a X * 2 ^ l) && (rnum D a X * 2 ^ l <=? (rlo * 2 ^ l + (x + 1) * side) * a_sd a).
+Definition i32b (v : Z) : bool := (gen_i32_min <=? v) && (v <=? gen_i32_max).
+Definition pt_okb (c : csys) (g : geom) (hz0 hz1 : Z) (k : vkey) (p : pt) : bool :=
+  in_cube1b (c_D c) (c_x c) (g_x g) (g_side g) (kl k) (kx k) (p_x p)
+  && in_cube1b (c_D c) (c_y c) (g_y g) (g_side g) (kl k) (ky k) (p_y p)
+  && in_cube1b (c_D c) (c_z c) (g_z g) (g_side g) (kl k) (kz k) (p_z p)
+  && i32b (p_x p) && i32b (p_y p) && i32b (p_z p)
+  && in_range1 (c_D c) (c_z c) (p_z p) hz0 hz1.
+Definition pts_okb (t : tree) (c : csys) (g : geom) (hz0 hz1 : Z) (pts : entry -> list pt) : bool :=
+  forallb (fun e => forallb (pt_okb c g hz0 hz1 (e_key e)) (pts e)) (nodes_of t).
+Definition csys_okb (c : csys) : bool :=
+  (0 <? c_D c) && (0 <? a_sn (c_x c)) && (0 <? a_sd (c_x c)) && (0 <? a_sn (c_y c)) && (0 <? a_sd (c_y c))
+  && (0 <? a_sn (c_z c)) && (0 <? a_sd (c_z c)).
